@@ -37,6 +37,38 @@ def iterators_ended(m, val=None):
     return all(ended.get(t) for t in started) and bool(started)
 
 
+def _position_dependent(db, fp, bound=8):
+    """integer comparisons / remainders against a constant larger than `bound` in the body of an
+    ingestion impl (and its closures): the impl treats items differently depending on how many came
+    before (blocking, periodic flushes), which the comparison on a few abstract items cannot cover"""
+    out = []
+    for p, fn in db.fns.items():
+        if not (p == fp or p.startswith(fp + "::{closure")):
+            continue
+        for b in fn["blocks"]:
+            for s in b["stmts"]:
+                rv = s.get("rv") if s.get("k") == "assign" else None
+                if not rv or rv.get("k") != "bin" or rv.get("op") not in ("Eq", "Ne", "Lt", "Le", "Gt", "Ge", "Rem", "RemWithOverflow"):
+                    continue
+                aty = (rv.get("aty") or {}).get("s", "")
+                if aty in ("f64", "f32", "bool"):
+                    continue
+                for side in ("a", "b"):
+                    c = (rv.get(side) or {}).get("c")
+                    if not c:
+                        continue
+                    v = c.get("uint", c.get("int"))
+                    if v is None and "tyconst" in c and isinstance(c["tyconst"].get("v"), int):
+                        v = c["tyconst"]["v"]
+                    try:
+                        v = int(v)
+                    except (TypeError, ValueError):
+                        continue
+                    if abs(v) > bound:
+                        out.append((s.get("span") or {}, rv["op"], v))
+    return out
+
+
 def r_forward_ingest(ctx, db, est, max_items=3, state_assume=None, ctor_args=None):
     """FromIterator / Extend impls (by value and by reference): the result is exactly
     new(); add(item) for every item in order (resp. add on the receiver for extend)"""
@@ -54,6 +86,12 @@ def r_forward_ingest(ctx, db, est, max_items=3, state_assume=None, ctor_args=Non
             f = db.fns[fp]
             fsite = R.fn_site(db, fp)
             item_s = imp["trait_args"][0]["s"] if imp.get("trait_args") else "?"
+
+            for sp_, op_, v_ in _position_dependent(db, fp):
+                ctx.ob("R-FORWARD", "%s<%s>:item-uniform" % (kind, item_s), fp, fsite, False,
+                       "%s compares an integer with the constant %d (%s at %s): items are treated differently depending on their position "
+                       "(blocking / periodic flush), which `add` in a loop never does and which the comparison on up to %d abstract items cannot cover" % (
+                           kind, v_, op_, site(sp_), max_items))
 
             def setup(m, f=f, fp=fp, kind=kind, imp=imp):
                 alg = Alg(m, est)
